@@ -534,7 +534,7 @@ func (t *sqlTable) evalIdeal(w sqlWhere) []int {
 // ---------------------------------------------------------------------------------------------
 // as-is models of the demonstrated defects (see c19.go for the descriptions)
 
-type sqlDefects struct{ SQL1, SQL2, SQL3, SQL4 bool }
+type sqlDefects struct{ SQL1, SQL2, SQL3, SQL4, SQL5 bool }
 
 func (d sqlDefects) names() []string {
 	var s []string
@@ -549,6 +549,9 @@ func (d sqlDefects) names() []string {
 	}
 	if d.SQL4 {
 		s = append(s, "F-SQL4")
+	}
+	if d.SQL5 {
+		s = append(s, "F-SQL5")
 	}
 	return s
 }
@@ -627,6 +630,36 @@ func (t *sqlTable) triggers(w sqlWhere) sqlDefects {
 		for _, n := range m {
 			if n >= 2 {
 				d.SQL3 = true
+			}
+		}
+	}
+	// F-SQL5: on a float32 column, a lower bound that exceeds an upper bound as float64 literals
+	// although the two are ordered the other way (or equal) in the column's precision
+	for _, a := range w {
+		cc := t.col(a.Col)
+		if a.Epoch || cc == nil || cc.TS != "f4" {
+			continue
+		}
+		var los, his []sqlLit
+		for _, b := range w {
+			if b.Col != a.Col {
+				continue
+			}
+			switch b.Op {
+			case ">", ">=":
+				los = append(los, b.A)
+			case "<", "<=":
+				his = append(his, b.A)
+			case "between":
+				los = append(los, b.A)
+				his = append(his, b.B)
+			}
+		}
+		for _, lo := range los {
+			for _, hi := range his {
+				if lo.asF64() > hi.asF64() && float32(lo.asF64()) <= float32(hi.asF64()) {
+					d.SQL5 = true
+				}
 			}
 		}
 	}
@@ -728,6 +761,14 @@ func (t *sqlTable) evalAsIs(w sqlWhere, d sqlDefects) []int {
 	}
 	idx := []int{}
 	ep := effs["Epoch"]
+	if d.SQL5 {
+		for _, name := range order {
+			e := effs[name]
+			if cc := t.col(name); cc != nil && cc.TS == "f4" && e.min.set && e.max.set && e.min.lit.asF64() > e.max.lit.asF64() {
+				return idx // the early "always false" test compares the literals as float64
+			}
+		}
+	}
 	if d.SQL1 && ep != nil && ep.max.set && ep.max.lit.Form == "sec" {
 		return idx // the upper bound lands in 1970: nothing is read
 	}
@@ -1133,6 +1174,16 @@ func (t *sqlTable) genColPreds(r *gen.R, c *sqlCol, budget int) []sqlCmp {
 // genWhereMain: a conjunction of up to k comparisons over Epoch and the supported value columns,
 // inside the fragment that avoids every known trigger. Columns named in exclude are not used.
 func (t *sqlTable) genWhereMain(r *gen.R, k int, exclude map[string]bool) sqlWhere {
+	for try := 0; try < 20; try++ {
+		w := t.genWhereMainOnce(r, k, exclude)
+		if t.triggers(w) == (sqlDefects{}) {
+			return w
+		}
+	}
+	return nil // practically unreachable: an empty conjunction triggers nothing
+}
+
+func (t *sqlTable) genWhereMainOnce(r *gen.R, k int, exclude map[string]bool) sqlWhere {
 	var w sqlWhere
 	var cols []*sqlCol
 	for _, c := range t.valueCols(true) {
@@ -1277,9 +1328,9 @@ func idxDump(t *sqlTable, idx []int) []string {
 // subsets of the triggered defects, smallest first.
 func defectSubsets(d sqlDefects) []sqlDefects {
 	var all []sqlDefects
-	for m := 1; m < 16; m++ {
-		s := sqlDefects{m&1 != 0, m&2 != 0, m&4 != 0, m&8 != 0}
-		if (s.SQL1 && !d.SQL1) || (s.SQL2 && !d.SQL2) || (s.SQL3 && !d.SQL3) || (s.SQL4 && !d.SQL4) {
+	for m := 1; m < 32; m++ {
+		s := sqlDefects{m&1 != 0, m&2 != 0, m&4 != 0, m&8 != 0, m&16 != 0}
+		if (s.SQL1 && !d.SQL1) || (s.SQL2 && !d.SQL2) || (s.SQL3 && !d.SQL3) || (s.SQL4 && !d.SQL4) || (s.SQL5 && !d.SQL5) {
 			continue
 		}
 		all = append(all, s)
